@@ -66,8 +66,26 @@ def show(x):
 
 def run(ctx):
     """returns the coverage fragment of the stream; violations / broken ties go to ctx"""
-    ok, out = ctx.gv("unify")
     path = os.path.join(ctx.run_dir, "unify.cases.tsv")
+    prog = os.path.join(ctx.run_dir, "unify.progress")
+    skip, crashed = [], []
+    while True:
+        for f in (path, prog):
+            if os.path.exists(f):
+                os.remove(f)
+        nb = len(ctx.broken_ties)
+        ok, out = ctx.gv("unify", ["--skip", ",".join(map(str, skip))] if skip else [])
+        if ok or not os.path.exists(prog) or len(skip) >= 6:
+            break
+        # the process died inside a script (a stack overflow of the real unify / norm cannot be caught in-process):
+        # that script is a failing input; run the rest without it
+        idx, cid, script = (open(prog).read().rstrip("\n").split("\t") + ["", ""])[:3]
+        del ctx.broken_ties[nb:]
+        crashed.append(cid)
+        ctx.report({"oracle": "unify-no-crash", "kind": "abort"},
+                   "the REAL Typer::unify / norm killed the process on this script (stack overflow: unbounded recursion)",
+                   {"id": cid, "script": script, "harness_output": out[-300:]})
+        skip.append(int(idx))
     rows = vlib.read_tsv(path) if ok and os.path.exists(path) else []
     cases = [r for r in rows if len(r) >= 4 and r[1] == "UNI"]
     gen_cov = {}
@@ -139,7 +157,7 @@ def run(ctx):
     if n_diff > 5:
         ctx.broken_ties.append(("unify model≠impl", f"{n_diff} scripts differ in all"))
     return {
-        "scripts": len(cases), "steps": n_steps, "unify_steps": n_unify, "unify_returned_true": n_ok,
+        "scripts": len(cases), "scripts_that_killed_the_process": crashed, "steps": n_steps, "unify_steps": n_unify, "unify_returned_true": n_ok,
         "distinct_unify_steps": len(distinct), "diagnostic_classes_observed(real)": classes,
         "true_with_a_wildcard_length_in_a_normal_form": n_wild_ok,
         "true_but_normal_forms_not_identical(wildcard only)": n_post_differ,
